@@ -8,34 +8,109 @@ PY = "/venv/bin/python /verif/check.py"
 
 # id -> (category, technique, level text, level note, design ref, engine)
 CHECKS = {
+    "C01": (
+        "model_checking",
+        "exhaustive enumeration of all sentences <= N tokens of a C99 Annex-A grammar model (dynamic programming over nonterminal x length), each replayed on the real parser in every syntactic frame; rejections cross-checked with gcc",
+        "Every sentence of the transcribed C99/C11 grammar up to N tokens per nonterminal, placed in every frame where the nonterminal may occur, plus every single-position vocabulary substitution, is parsed by the real CParser; each is valid by construction so each must be accepted.",
+        "Bounded by sentence length N per nonterminal; the model excludes constraint-violating specifier combinations that pycparser diagnoses on purpose; typedef-name rule made static (one typedef name T). A rejection counts only if gcc reports no syntax error for the same text.",
+        "DESIGN.md §3.G, §4.4, §5 C01", "gramdp"),
+    "C02": (
+        "model_checking",
+        "exhaustive enumeration of all expression trees <= k operator nodes of a reference expression model (render + expected AST), each rendering replayed on the real parser; renderer audited with gcc _Static_assert",
+        "Every expression tree with up to k operator nodes over all C operators, in three parenthesisation modes and eight expression contexts, is rendered from C99's grammar levels, parsed by the real parser and compared with the AST the model computes independently.",
+        "Bounded by operator count k; leaves are position-distinct identifiers/constants; the model's precedence knowledge is bound to gcc by a _Static_assert audit of constant-evaluable trees.",
+        "DESIGN.md §3.B, §4.5, §5 C02", "tree-models"),
+    "C03": (
+        "model_checking",
+        "exhaustive enumeration of all declarator derivation sequences <= L (x contexts x base specifiers x parenthesisation), multi-declarator pairs, specifier orderings, struct/enum bodies, initialisers and K&R definitions of a reference declaration model, each replayed on the real parser; model audited with gcc __builtin_types_compatible_p",
+        "Every derivation sequence up to length L over pointer/array/function variants in ten declaration contexts (named and abstract, plain and redundantly parenthesised, four base specifier shapes), every pair in multi-declarator lists, every legal specifier ordering, struct/union/enum bodies, designated initialisers, K&R definitions and the _Atomic(T) == _Atomic T differential are parsed by the real parser and compared with the chain the model derives from C99 6.7.5.",
+        "Bounded by sequence length, member/specifier list length and initialiser depth. Only semantically possible types are generated. The model's reading of 6.7.5 is audited against gcc with one-derivation-per-typedef chains.",
+        "DESIGN.md §3.B, §4.6, §5 C03", "tree-models"),
+    "C04": (
+        "model_checking",
+        "breadth-first exploration of all declaration/scope event histories <= L over two names with a reference scope-stack state machine; every history x probe replayed on the real parser",
+        "Every valid history of up to L scope/declaration events over two names (nesting depth <= 2) is generated from a reference scope stack; after every history each name is probed with four ambiguous statements and the real parser's classification (declaration/cast/type operand vs expression) must match the reference.",
+        "Bounded by history length, two names, depth 2; for-loop scopes are outside the property's quantifier and not generated.",
+        "DESIGN.md §3.H, §4.7, §5 C04", "history-bfs"),
+    "C05": (
+        "model_checking",
+        "exhaustive enumeration of all statement trees to depth d of a reference statement model (incl. every single pragma insertion and all short switch bodies), each replayed on the real parser against the model's expected AST",
+        "Every statement tree up to the depth bound over the full statement alphabet, every switch body up to the length bound, and every single pragma insertion at a statement boundary is rendered, parsed by the real parser and compared with the AST the model computes (dangling else, case regrouping, pragma wrapping, for-init declaration lists).",
+        "Bounded by tree depth / switch-body length; buried case labels are treated as opaque (the property does not decide them); _Static_assert's ';' convention follows the repository's own test.",
+        "DESIGN.md §3.B, §4.7, §5 C05", "tree-models"),
     "C06": (
         "model_checking",
-        "stateless exhaustive exploration of the real parser with the lexer as environment (all token strings <= N, unread-suffix reduction), plus exhaustive 1-edit and character-string enumeration",
+        "stateless exhaustive exploration of the real parser with the lexer as environment (all token strings <= N, exact unread-suffix reduction), plus exhaustive 1-edit and character-string enumeration",
         "Every token string up to the bound over the full token vocabulary, in six syntactic contexts, is executed on the real CParser (strings sharing an unread suffix are decided together by an exact reduction that is itself checked mechanically); every single-token edit of the small corpus files and every character string up to the bound are executed too. The outcome of every execution must be FileAST or a located ParseError.",
         "Bounded: token strings <= N after a context prefix, the vocabulary's spellings, strings <= L over 20 characters; longer inputs only as 1-edit neighbourhoods of corpus files. RecursionError tolerated as the property says.",
-        "DESIGN.md §3.A, §5 C06",
-        "tokex",
-    ),
+        "DESIGN.md §3.A, §5 C06", "tokex"),
     "C07": (
         "exploration",
         "exhaustive sweep of a bounded program pool (all accepted token strings <= N per context from TokEx, reference-model sentences, corpus and its accepted 1-token edits) through parse/generate/parse",
         "Every program of the bounded, deterministic pool is parsed, regenerated with both generator configurations, re-parsed and compared structurally (slots, not children()), and regenerated again (fixed point). Exhaustive inside the pool bounds.",
         "Pool bounds: token strings <= N after six context prefixes, model sentences at the tier's depth, corpus files and their 1-token edits. AST equality ignores coordinates only.",
-        "DESIGN.md §4.9, §5 C07",
-        "pool",
-    ),
+        "DESIGN.md §4.9, §5 C07", "pool"),
+    "C08": (
+        "exploration",
+        "exhaustive enumeration of a typed (type-correct by construction) program model; gcc -S of original vs regenerated text as per-case oracle, failing batches bisected exhaustively, failures attributed to minimal feature sets",
+        "Every typed expression term up to k operators, every typed statement tree to depth 2, every declarator derivation sequence with sizeof probes and a table of declaration forms is compiled with gcc before and after a trip through parse+CGenerator; the assembly texts must be identical.",
+        "gcc 12 output at -O0 (thorough: also -O1) with .file/.ident/nop lines dropped is taken as the program's meaning; both texts are laid out one token per line. Programs outside the typed model (floating point semantics, VLAs, ...) are not covered.",
+        "DESIGN.md §3.T, §4.8, §5 C08", "typed-gcc"),
+    "C09": (
+        "model_checking",
+        "exhaustive enumeration of all token pairs/triples x separators x directive placements against a hand-written C99 reference lexer and layout model, plus all character strings <= L with model-free progress/position invariants, replayed on the real CLexer",
+        "Every ordered pair over a 178-token vocabulary under every separator (incl. the empty one, where the reference re-tokenises the paste), every directive form in every gap, both type-lookup answers, and every character string up to L over 20 characters are lexed by the real lexer and compared with the reference scanner's tokens, classes, logical lines/columns and file names.",
+        "Bounded by pair/triple length and string length. Position and gap rules are evaluated up to the first error report, as the property promises positions only for valid token sequences.",
+        "DESIGN.md §3.C, §4.2, §4.3, §5 C09", "lexref"),
+    "C10": (
+        "model_checking",
+        "exhaustive enumeration of all strings <= L over a 17-character literal alphabet (plus suffix/escape tables) against a three-valued hand-written C99 literal grammar, replayed on the real lexer and parser",
+        "Every string up to L over the literal alphabet, alone and followed by a blank or ';', every integer body x suffix spelling, float body x suffix, escape body x prefix is classified by the reference (must-accept / must-reject / don't-care) and lexed by the real lexer; every must-accept literal also goes through the parser to check Constant.value/type.",
+        "Bounded by string length; the lenient zone pycparser documents (extra escape letters, decimal escapes, pp-numbers split into two tokens) is don't-care and never raises an alarm.",
+        "DESIGN.md §4.2, §5 C10", "lexref"),
+    "C12": (
+        "model_checking",
+        "exhaustive breadth-first exploration of all operation histories <= n on real CParser / CLexer / CGenerator objects, each history replayed on a fresh object and compared call-by-call with fresh-instance results; canonical object states counted",
+        "Every sequence of up to n parse calls over 24 operations chosen one per way of leaving state behind, every (input, k tokens, input) lexer chain and every sequence of generator visits is executed on one reused object; each result must equal a fresh instance's and ASTs must share no nodes.",
+        "Bounded by history length and the operation alphabet; object states are only counted (never merged).",
+        "DESIGN.md §3.H, §5 C12", "history-bfs"),
+    "C13": (
+        "model_checking",
+        "stateless schedule exploration with preemption bounding (CHESS-style) of 2-3 concurrent parses/generations under a cooperative thread-baton scheduler, switch points at every token pull and at every call into pycparser",
+        "All schedules with up to b preemptions of two or three parsers/generators/visitors on clashing programs (switch points at token pulls through the public lexer= seam and at every call event into pycparser), and all interleavings of the smallest pair, are executed on the real code; every task's result must equal its solo result.",
+        "Cooperative scheduling only (no bytecode-level preemption, no free-running OS threads); bounded by preemption count and program size.",
+        "DESIGN.md §3.S, §5 C13", "sched"),
+    "C14": (
+        "exploration",
+        "exhaustive configuration sweep over all 49 node classes of _c_ast.cfg (every subset of optional children, sequences of length 0-2) against an independent reader of the specification and a module regenerated in memory, plus every pool AST under instrumented visitors",
+        "Every node class is instantiated in every configuration of present/absent children; slots, constructor order, attr_names, children(), iteration are compared with an independent reading of the specification and with a freshly generated module; on every pool AST generic traversal, visit_X interception and show() line counts are checked.",
+        "The class space is finite and covered completely; tree-level claims hold for the bounded pool.",
+        "DESIGN.md §5 C14", "sweep"),
+    "C15": (
+        "exploration",
+        "exhaustive sweep of every pool AST, every string/char constant body <= 3 over 7 characters and every C14 configuration through repr/eval, pickle (all protocols >= 2) and deepcopy",
+        "Every AST of the bounded pool and every hand-built constant/configuration is rebuilt through repr/eval, pickle and deepcopy and compared structurally (with coordinates for pickle/deepcopy), by generated text, by node identity and under mutation of the copy.",
+        "Bounded pool; constant bodies <= 3 characters.",
+        "DESIGN.md §5 C15", "sweep"),
+    "C18": (
+        "model_checking",
+        "TokEx invariant 'accepted => brackets balanced' on every explored token string (full vocabulary and a bracket-heavy vocabulary to a deeper bound), plus exhaustive single-bracket mutations and non-token injections of every pool program",
+        "Every token string up to N (full vocabulary, six contexts) and up to a larger N over a bracket-heavy vocabulary in expression/declarator/statement contexts is executed on the real parser: an accepted string must be bracket-balanced by a reference stack matcher. Every pool program x every single bracket deletion/duplication/kind swap and x every non-token text at every gap must raise ParseError.",
+        "Bounded by N and by the pool; brackets inside literals/pragma text do not occur in the explored vocabulary.",
+        "DESIGN.md §5 C18", "tokex"),
 }
 
 PENDING = {
 }
 
 ALL = [f"C{i:02d}" for i in range(1, 20)]
+ENABLED = ["C03", "C06", "C07", "C08", "C09", "C10", "C12", "C13", "C14", "C15", "C18"]
 
 
 def main():
     checks = []
     for pid in ALL:
-        if pid not in CHECKS:
+        if pid not in CHECKS or pid not in ENABLED:
             continue
         cat, tech, text, note, ref, eng = CHECKS[pid]
         checks.append(
@@ -54,7 +129,7 @@ def main():
     na = [
         {"property_id": pid, "reason": PENDING.get(pid, "check not built yet in this revision of /verif (planned in DESIGN.md §5); not claimed until it runs")}
         for pid in ALL
-        if pid not in CHECKS
+        if pid not in CHECKS or pid not in ENABLED
     ]
     m = {
         "version": 1,
@@ -69,6 +144,18 @@ def main():
         "engines": [
             {"name": "tokex", "path": "/verif/mc/tokex.py", "serves_properties": ["C06", "C18", "C07", "C11", "C15", "C17"],
              "kind_free_text": "stateless BFS over token strings on the real parser, environment = lexer answers, exact unread-suffix reduction"},
+            {"name": "tree-models", "path": "/verif/models/", "serves_properties": ["C02", "C03", "C05", "C08"],
+             "kind_free_text": "bounded enumeration of reference-model terms (render + expected AST), every term replayed on the real parser"},
+            {"name": "gramdp", "path": "/verif/mc/gramdp.py", "serves_properties": ["C01"],
+             "kind_free_text": "dynamic programming enumeration of all sentences <= N of a grammar model"},
+            {"name": "history-bfs", "path": "/verif/mc/hist.py", "serves_properties": ["C04", "C12"],
+             "kind_free_text": "BFS over operation/event histories replayed on fresh real objects"},
+            {"name": "sched", "path": "/verif/mc/sched.py", "serves_properties": ["C13"],
+             "kind_free_text": "deviation-bounded DFS over schedules with a thread-baton cooperative scheduler"},
+            {"name": "lexref", "path": "/verif/models/lexref.py", "serves_properties": ["C09", "C10", "C11", "C17"],
+             "kind_free_text": "hand-written three-valued C99 reference lexer + layout model"},
+            {"name": "typed-gcc", "path": "/verif/models/typed_model.py", "serves_properties": ["C08", "C01"],
+             "kind_free_text": "typed program model with gcc as per-case oracle"},
         ],
         "checks": checks,
         "not_applicable": na,
